@@ -649,6 +649,7 @@ class C13Check(LifeCheckBase):
         from . import streamsim as S
 
         c3 = S.C03Check()
+        c3.allow_unseeded = False  # a fixed random_state is the premise here
         sc = c3.generate(rng.fork("stream"))
         sc["injections"] = []
         sc["engine"] = "lifesim"
